@@ -216,6 +216,8 @@ def run(rep: Report, tier: str) -> None:
                 kind = base
             elif base in ("copy", "replace", "remove", "move") and fn.split(".")[0] in ("shutil", "os"):
                 kind = base
+            elif isinstance(node.func, ast.Attribute) and base in ("replace", "rename", "remove", "copy") and _is_path_receiver(mod, node.func.value):
+                kind = base  # Path.replace / Path.rename move a file: the (possibly relative) target is a write outside the tabled locations
             elif base in ("FileHandler", "RotatingFileHandler", "TimedRotatingFileHandler", "newdoc", "NamedTemporaryFile", "TemporaryDirectory", "mkstemp", "mkdtemp", "basicConfig"):
                 kind = base
             if kind is None:
@@ -236,6 +238,21 @@ def run(rep: Report, tier: str) -> None:
     kw = {k.arg: unparse(k.value) for k in g[0].keywords} if g else {}
     rep.check(kw.get("output_dir_path") == "args.output_dir", rd, main.module, main.qualname, "generators write below args.output_dir", f"generators receive output_dir_path={kw.get('output_dir_path')}; expected the -o directory", loc(main.node))
     rep.note("-p PREFIX is concatenated into the file name unchecked: a prefix containing '../' moves the report out of the output directory (user-chosen location, not counted as a violation)")
+
+
+def _is_path_receiver(mod, recv: ast.AST) -> bool:
+    """The receiver of .replace()/.rename()/... is a pathlib path (mypy's type when available, else its spelling)."""
+    from .. import typed
+
+    if typed.available():
+        try:
+            t = typed.type_of(mod.name, recv)
+        except Exception:
+            t = None
+        if t is not None:
+            return "pathlib." in t or t.endswith("Path")
+    txt = unparse(recv)
+    return txt.startswith("Path(") or "path" in txt.lower().split(".")[-1]
 
 
 def _log_file_under_log(prog) -> bool:
